@@ -57,7 +57,10 @@ Verdict(o) ==
         (IF wantok /\ ~ok THEN { <<"C04", "refused_although_fits">> : x \in {1} } \cup {<<"C14", "refused_valid_call">>}
                                \* a requested mode in which the content is representable and that the version supports is used, not refused;
                                \* (a refusal for lack of space is C04's business: only refusals that are not overflows count here)
-                               \cup (IF a.mode # "none" /\ ~IsDOE THEN {<<"C07", "requested_mode_refused">>} ELSE {}) ELSE {})
+                               \cup (IF a.mode # "none" /\ ~IsDOE THEN {<<"C07", "requested_mode_refused">>} ELSE {})
+                               \* without a requested mode the content is encoded in the first applicable mode (byte always applies):
+                               \* a refusal that is not an overflow means the mode search chose a mode the content is not representable in
+                               \cup (IF a.mode = "none" /\ ~IsDOE THEN {<<"C07", "automatic_mode_refused_content">>} ELSE {}) ELSE {})
         \cup (IF out.st = "DataOverflowError" /\ ok THEN {<<"C04", "accepted_although_overflow">>} ELSE {})
         \cup (IF out.st = "DataOverflowError" /\ refused /\ ~IsDOE THEN {<<"C04", "overflow_not_reported_as_DataOverflowError">>} ELSE {})
         \cup (IF out.st = "ValueError" /\ ok THEN {<<"C14", "accepted_although_excluded">>} \cup
